@@ -140,6 +140,10 @@ class C05(PropCheck):
         inc("mode", "xy" if case["xy"] else "ising")
         inc("atoms", len(case["atoms"]) + len(case.get("extra_atoms", [])))
         inc("register_dim", len(case["atoms"][0][1]))
+        labels = [a[0] for a in case["atoms"]]
+        inc("atom_labels", "str" if all(isinstance(x, str) for x in labels)
+            else ("int:position" if labels == list(range(len(labels)))
+                  else ("int:permutation" if sorted(labels) == list(range(len(labels))) else "int:arbitrary")))
         inc("rate", case["rate"])
         inc("config_history_steps", len(case.get("history") or []))
         for (how, kw), res in zip(case.get("history") or [], run.get("history") or []):
